@@ -58,6 +58,136 @@ theorem gibbs_target_is_joint (Fs : List (Factor V K)) (hw : WF Fs) (σ₀ : Kw 
 /-- the hypotheses are satisfiable: the docstring model, data `y`, three variables left free -/
 example := gibbs_target_is_joint docFs docFs_wf [("y", [3, 1])] (by decide)
 
+/-- **multi_block_target_accepted** — with at least two variables left free neither constructor objects to
+    the class of the target: `validate_targets` passes (`isinstance(target, JointDistribution)`), every
+    `self.target.get_density(n)` of `_get_initial_points` / `get_samples` exists — whether or not the block
+    samplers were given initial points. -/
+theorem multi_block_target_accepted (Fs : List (Factor V K)) (hw : WF Fs) (σ₀ : Kw V)
+    (h2 : 2 ≤ (freeNames Fs σ₀).length) (given : Bool) :
+    ∃ P, gibbsTarget Fs σ₀ = .ok P ∧ hybridTargetVerdict P given = none ∧ legacyTargetVerdict P = none :=
+  ⟨_, (gibbs_target_is_joint Fs hw σ₀ h2).1, rfl, rfl⟩
+
+example (given : Bool) := multi_block_target_accepted docFs docFs_wf [("y", [3, 1])] (by decide) given
+
+/-- what the constructors make of a target, as one value (for the single-block corners below) -/
+def verdicts (r : Except Err (Obj V K)) : Option (String × Option CErr × Option CErr × Option CErr) :=
+  match r with
+  | .ok P => some (P.kind, hybridTargetVerdict P false, hybridTargetVerdict P true, legacyTargetVerdict P)
+  | .error _ => none
+
+lemma reduce_flavor_indep (ds : List (Dens V K)) (fl : Flavor) (o : Obj V K)
+    (h : reduce .plain ds = .ok o) (hk : o.kind ≠ "JointDistribution") : reduce fl ds = .ok o := by
+  simp only [reduce] at h ⊢
+  rcases hd : ds.filter Dens.isDist with _ | ⟨P, _ | ⟨P2, r⟩⟩ <;>
+    rcases hl : ds.filter Dens.isLik with _ | ⟨L, _ | ⟨L2, r2⟩⟩ <;>
+    simp only [hd, hl, List.length_nil, List.length_cons, gt_iff_lt] at h ⊢
+  all_goals (norm_num at h ⊢)
+  all_goals first
+    | exact h
+    | (cases h; simp [Obj.kind] at hk)
+    | (split_ifs at h ⊢ <;> first | exact h | (cases h; simp [Obj.kind] at hk))
+    | (cases P <;> simp at h ⊢ <;> exact h)
+
+/-- the class `_reduce_to_single_density` returns for one free variable with `c` children -/
+def classOfChildren (c : Nat) : String :=
+  if c = 0 then "Distribution" else if c = 1 then "Posterior" else "MultipleLikelihoodPosterior"
+
+/-- **single_block_target_class** — the single-block corner for EVERY well-formed graph: when the data leave
+    exactly one variable `n` free, the object both constructors store (`target()` applied to the user's
+    conditioned joint) is a `Distribution` / `Posterior` / `MultipleLikelihoodPosterior` according to the
+    number of children of `n` (0 / 1 / ≥ 2), nothing raises while it is built, and it is an instance of
+    `JointDistribution` iff `n` has at least two children. -/
+theorem single_block_target_class (Fs : List (Factor V K)) (hw : WF Fs) (σ₀ : Kw V) (n : Name)
+    (h1 : freeNames Fs σ₀ = [n]) :
+    ∃ P, gibbsTarget Fs σ₀ = .ok P ∧ P.kind = classOfChildren (childrenOf Fs n).length ∧
+      isJointInstance P = decide (2 ≤ (childrenOf Fs n).length) := by
+  have hfresh : Fs.map fresh = Fs.map (st ([] : Kw V)) := by
+    apply List.map_congr_left; intro F _; exact (st_fresh F).symm
+  obtain ⟨o, ho, hr, hk, _⟩ := reduce_rep Fs hw σ₀ .plain (by decide)
+  have hnd : (Fs.filter (fun F => (st σ₀ F).isDist)).length = 1 := by
+    have := length_dists Fs σ₀
+    rw [filter_isDist_map, List.length_map, h1] at this
+    simpa using this
+  have hkind : o.kind = classOfChildren (childrenOf Fs n).length := by
+    rw [hk rfl, hnd, filter_isLik_of_one_free Fs hw σ₀ n h1]
+    simp [branchKind, classOfChildren]
+  have hstep : ∃ P, o.cond [] [] = .ok P ∧ P.kind = o.kind ∧ isJointInstance P = isJointInstance o := by
+    cases hr with
+    | joint fl hfl =>
+      refine ⟨_, ?_, rfl, rfl⟩
+      simp only [Obj.cond]
+      rw [condition_steps Fs hw.fok, List.append_nil]
+      exact reduce_flavor_indep _ fl _ ho (by
+        rw [hkind]; unfold classOfChildren; split_ifs <;> decide)
+    | post G H nm hD hL =>
+      exact ⟨_, by simp [Obj.cond, condPost, parseDist, kwGet], rfl, rfl⟩
+    | dist G hD hL =>
+      refine ⟨.single (.dist G (bindEnv (penv G σ₀) (free G (penv G σ₀)) []) (0 + sumEvals 0 (Fs.map (st σ₀)))), ?_, rfl, rfl⟩
+      simp [Obj.cond, condDens, condDist, parseDist, kwGet]
+    | eval nm v c hv hall =>
+      exfalso
+      have : (Obj.single (Dens.eval nm v c) : Obj V K).kind = "EvaluatedDensity" := rfl
+      rw [this] at hkind
+      unfold classOfChildren at hkind
+      split_ifs at hkind <;> exact absurd hkind (by decide)
+  obtain ⟨P, hP, hPk, hPj⟩ := hstep
+  refine ⟨P, ?_, by rw [hPk, hkind], ?_⟩
+  · unfold gibbsTarget mkJoint
+    rw [hfresh, jointCheck_st Fs hw []]
+    simp only [Obj.cond]
+    rw [condition_steps Fs hw.fok, List.nil_append, ho]
+    exact hP
+  · rw [hPj]
+    cases o with
+    | joint fl ds =>
+      cases fl <;> simp only [Obj.kind, classOfChildren] at hkind <;> simp only [isJointInstance] <;>
+        split_ifs at hkind <;> first | (exact absurd hkind (by decide)) | (simp; omega)
+    | post L P c nm =>
+      simp only [Obj.kind, classOfChildren] at hkind
+      simp only [isJointInstance]
+      split_ifs at hkind <;> first | (exact absurd hkind (by decide)) | (simp; omega)
+    | single d =>
+      cases d <;> simp only [Obj.kind, classOfChildren] at hkind <;> simp only [isJointInstance] <;>
+        split_ifs at hkind <;> first | (exact absurd hkind (by decide)) | (simp; omega)
+    | none =>
+      simp only [Obj.kind, classOfChildren] at hkind
+      split_ifs at hkind <;> exact absurd hkind (by decide)
+
+/-- **single_block_verdicts** — hence `HybridGibbs.__init__` accepts a single-block target iff the block has
+    at least two (observed) children — a `MultipleLikelihoodPosterior`, which is a joint —, and otherwise
+    raises `AttributeError` (some sampler without initial point: `self.target.get_density`) or `ValueError`
+    (`validate_targets`); legacy `Gibbs` raises `AttributeError` at its first `sample` in the same cases. -/
+theorem single_block_verdicts (Fs : List (Factor V K)) (hw : WF Fs) (σ₀ : Kw V) (n : Name)
+    (h1 : freeNames Fs σ₀ = [n]) (given : Bool) :
+    ∃ P, gibbsTarget Fs σ₀ = .ok P ∧
+      hybridTargetVerdict P given = (if 2 ≤ (childrenOf Fs n).length then none
+        else if given then some .valueError else some .attributeError) ∧
+      legacyTargetVerdict P = (if 2 ≤ (childrenOf Fs n).length then none else some .attributeError) := by
+  obtain ⟨P, hP, _, hj⟩ := single_block_target_class Fs hw σ₀ n h1
+  refine ⟨P, hP, ?_, ?_⟩
+  · unfold hybridTargetVerdict; rw [hj]
+    by_cases h : 2 ≤ (childrenOf Fs n).length <;> simp [h]
+  · unfold legacyTargetVerdict; rw [hj]
+    by_cases h : 2 ≤ (childrenOf Fs n).length <;> simp [h]
+
+example (given : Bool) := single_block_verdicts mlpFs mlpFs_wf [("y1", [1]), ("y2", [2])] "x" (by decide) given
+
+/-- the three classes on the two-data-set model `x`, `y1 | x`, `y2 | x`: both data sets observed →
+    `MultipleLikelihoodPosterior`, accepted; one child → `Posterior`, no child → `Distribution`, refused -/
+example :
+    verdicts (gibbsTarget mlpFs [("y1", [1]), ("y2", [2])])
+      = some ("MultipleLikelihoodPosterior", none, none, none) ∧
+    verdicts (gibbsTarget (mlpFs.take 2) [("y1", [1])])
+      = some ("Posterior", some .attributeError, some .valueError, some .attributeError) ∧
+    verdicts (gibbsTarget (mlpFs.take 1) ([] : Kw (List Int)))
+      = some ("Distribution", some .attributeError, some .valueError, some .attributeError) := by
+  refine ⟨by decide, by decide, by decide⟩
+
+/-- `get_samples` wraps the sweeps of block `x` of the docstring model in a geometry of dimension 2, those
+    of `z` and `s` in one of dimension 1 -/
+example : (["x", "z", "s"].map (samplesGeometryDim (Obj.joint .plain (docFs.map (st [("y", [3, 1])])))))
+    = [some 2, some 1, some 1] := by decide
+
 /-! ## one block -/
 
 /-- **handed_target_is_conditional** — the object `self.target(**{m: current[m] for m ≠ n})` that
